@@ -18,6 +18,20 @@ Observed:  {"cols":  [{"n": column name, "s": type name, "upper", "ext", "name":
             "calls": [["raise", what] | [[name, type_code, dprec, dscale, back], ...], ...]
                      DataFrame(rows=[], schema=RelationSchema(columns=<those that did not raise>)).description,
                      called twice on the same frame; back = from_name(type_code)}
+
+Round 3, third case shape (stream "session"): operations on ONE RelationSchema object
+Case:      {"session": {"cols": [[column name, type name], ...],
+                        "ops":  [["describe", f] | ["replace", i, name, type] | ["append", name, type] | ["pop", name] | ["retype", i, type], ...]}}
+           describe f: frames[f].description, frame f = DataFrame(rows=[], schema=<the schema object>) created at first use and kept;
+           replace: schema.columns[i % len] = FlatColumn(name, type); append: schema.columns.append(FlatColumn(...)); pop: schema.pop_column(name);
+           retype: type/length/precision/scale/element_type of the column OBJECT schema.columns[i % len] assigned from from_name(type)
+Observed:  {"cols": as for frames (attributes read right after construction),
+            "steps": [{"now": [[name, ty, length, precision, scale, element], ...] (the schema's column objects read at this step),
+                       "desc": ["raise", what] | [[name, type_code, dprec, dscale, back], ...]}          for describe
+                      | {"decl": {"n","s","upper","ext","name","col"}}                                    for replace / append
+                      | {"found": bool}                                                                   for pop
+                      | {"res": {"n": "", "s","upper","ext","name"}}                                      for retype],
+            "final": [[name, ty, length, precision, scale, element], ...]}
 """
 import ast
 import os
@@ -41,7 +55,11 @@ LEVEL_TEXT = ("Machine-checked Coq theorems over the executable model: every wel
               "every ASCII character in each character-class position, plus random mutations, truncations and Unicode noise. "
               "Whole frames (stream 'frame'): DataFrame.description is modelled as the loop over the schema with lookup by column name; proved: with distinct "
               "column names every entry is a function of its own column alone and its type code resolves back, whatever the other columns are; tied to the code on "
-              "every ordered pair of 38 declared names, triples of same-base-type spellings, wide frames and random frames (description called twice per frame).")
+              "every ordered pair of 38 declared names, triples of same-base-type spellings, wide frames and random frames (description called twice per frame). "
+              "Sessions (stream 'session'): one mutable schema object with the process-wide column_names cache as explicit state; operations describe-through-frame-f / "
+              "re-declare at an index / append / pop / assign attributes in place; proved: through a frame the cache does not remember, and through the cached frame "
+              "after in-place re-declarations, .description answers the schema as it is now, after any history; tied to the code on every ordered (old, new) pair of 10 "
+              "declarations x 5 re-declaration routes plus random sessions.")
 LEVEL_NOTE = ("Trusted: Coq kernel + vm_compute; the hand-written recognisers (validated against CPython's re on the extracted regex texts by the correspondence, "
               "not derived from the regex text); the AST reader in gen(); CPython str.upper / re character classes / int() on non-ASCII characters enter the "
               "correspondence as per-case oracle inputs (the model is evaluated with the interpreter's upper-cased string and the \\d/\\w/\\s membership and digit "
@@ -49,8 +67,8 @@ LEVEL_NOTE = ("Trusted: Coq kernel + vm_compute; the hand-written recognisers (v
               "No axioms (Print Assumptions: closed).")
 DESIGN_REF = "DESIGN.md section 8, C06"
 COQ_IMPORTS = "From Orso Require Import Base.C06_Defs Model.C06."
-COQ_CHECKS = {"name": "c06_check", "frame": "c06_frame_check"}
-COQ_SHOW = {"name": "c06_show", "frame": "c06_frame_show"}
+COQ_CHECKS = {"name": "c06_check", "frame": "c06_frame_check", "session": "c06_session_check"}
+COQ_SHOW = {"name": "c06_show", "frame": "c06_frame_show", "session": "c06_session_show"}
 RULE = ("strings handed to OrsoTypes.from_name, FlatColumn(type=...) and DataFrame.description; exhaustive: every member name and alias in upper, lower, "
         "capitalised and both alternating case patterns, DECIMAL(p,s) for (p,s) in 0..45 x 0..45, VARCHAR[n] and BLOB[n] for n in 0..300 and boundary widths "
         "(powers of two and ten, 4299/4300/4301-digit runs), ARRAY<T> for every name and alias T, every ASCII character in a digit / space / element position; "
@@ -59,12 +77,16 @@ RULE = ("strings handed to OrsoTypes.from_name, FlatColumn(type=...) and DataFra
         "frames: lists of (column name, type name) - exhaustive: every ordered pair of all member names, aliases and 21 parameterised / bare / rejected spellings, "
         "every ordered triple of 8 distinct DECIMAL / ARRAY spellings, the whole set in one frame in 3 orders, the empty frame, column-name schemes (case-only differences, "
         "type names as column names, repeated names); random: 1-9 columns, one or two base types repeated with fresh parameters, re-cased, malformed and non-ASCII "
-        "neighbours; a frame is non-trivial when at least two of its columns were constructed; distinct by the list")
+        "neighbours; a frame is non-trivial when at least two of its columns were constructed; distinct by the list; "
+        "sessions: initial columns + operations (describe f, replace i, append, pop, retype i) on one RelationSchema object, frames kept between steps - exhaustive: every "
+        "ordered pair (old, new) of 10 declarations x 5 routes, each described through the frame used before the change and one created after; random: 1-5 columns, 4-13 "
+        "operations over a 6-name pool; a session is non-trivial when the schema was changed between two descriptions")
 TRUSTED = [
     "C06 model (coq/Model/C06.v): recognisers for the four regular expressions with prefix-match semantics (greedy runs; no backtracking is needed because each run is "
     "followed by a character outside its class), str.upper on ASCII, int() as positional decimal with CPython's digit-count limit, from_name's decision tree "
     "interpreted from regenerated rule tables, FlatColumn's parameter copy with the DECIMAL defaults, description's type-code rendering, "
-    "description's loop over the schema with RelationSchema.find_column's first-match lookup by name (hand-written, not regenerated from the AST)",
+    "description's loop over the schema with RelationSchema.find_column's first-match lookup by name (hand-written, not regenerated from the AST), "
+    "the session state: list assignment / append / pop_column on schema.columns and the single-item column_names cache keyed by frame object (hand-written)",
     "gen(): reads OrsoTypes.__members__ from the imported module and the regex texts, the if/elif chain of from_name, the startswith tuple and the DECIMAL guards from "
     "the AST of orso/types.py; refuses any shape it does not recognise; asserts the regex texts are the four the recognisers were written for",
     "modelled, not verified: CPython re / str.upper / int; for non-ASCII input their behaviour is supplied per case by the running interpreter",
@@ -75,6 +97,9 @@ ASSUMPTIONS = [
     "type-code round trip is stated for types whose enum value equals their name (all but the placeholder _MISSING_TYPE, value '0', cf. F-C16-4b)",
     "frames: the per-column statements are for frames whose column names are distinct (DataFrame.description looks columns up by name; under a repeated name it "
     "reports the first column of that name for each of them - modelled and compared, C06_description_first_match, but not demanded by the oracle)",
+    "sessions: 'depends only on the current schema' is stated for a frame object the process-wide DataFrame.column_names cache does not remember, or remembers with "
+    "the schema's current list of names (not_cached / cached_current); a frame object described again after the list of NAMES changed answers with the old names in "
+    "the implementation (missing column, or AttributeError) - modelled and compared exactly (C06_nonvacuous_sessions), not demanded by the oracle",
 ]
 KNOWN_WITNESSES = {}
 
@@ -547,6 +572,107 @@ def _ext_of(up):
     return ext
 
 
+def _describe_entries(df):
+    """df.description as [[name, type_code, dprec, dscale, from_name(type_code)], ...] or ["raise", what]"""
+    try:
+        d = df.description
+        if not isinstance(d, (list, tuple)):
+            raise TypeError("description is not a list")
+        entries = []
+        for row in d:
+            if not (isinstance(row, tuple) and len(row) == 7):
+                raise TypeError("description entry is not a 7-tuple")
+            nm, code, dprec, dscale = row[0], row[1], row[4], row[5]
+            back = _resolve(code) if isinstance(code, str) else ["raise", "not-a-string"]
+            entries.append([nm if isinstance(nm, str) else ["other", repr(nm)[:60]],
+                            code if isinstance(code, str) else ["other", repr(code)[:60]], _num(dprec), _num(dscale), back])
+        return entries
+    except Exception as e:
+        return ["raise", "description:" + type(e).__name__]
+
+
+def _attrs(col):
+    return [_ty(col.type), _num(col.length), _num(col.precision), _num(col.scale), _elt(col.element_type)]
+
+
+def _snapshot(schema):
+    return [[c.name if isinstance(c.name, str) else ["other", repr(c.name)[:60]]] + _attrs(c) for c in schema.columns]
+
+
+def _declare(n, s):
+    """FlatColumn(name=n, type=s): (observation entry, column or None)"""
+    from orso.schema import FlatColumn
+
+    up = s.upper()
+    entry = {"n": n, "s": s, "upper": up, "ext": _ext_of(up), "name": _resolve(s)}
+    try:
+        col = FlatColumn(name=n, type=s)
+    except Exception as e:
+        entry["col"] = ["raise", type(e).__name__]
+        return entry, None
+    entry["col"] = ["ok"] + _attrs(col)
+    return entry, col
+
+
+def _observe_session(case):
+    """Operations on ONE RelationSchema object, .description through frames that are kept between steps."""
+    from orso.dataframe import DataFrame
+    from orso.schema import RelationSchema
+    from orso.types import OrsoTypes
+
+    sess = case["session"]
+    with warnings.catch_warnings():
+        warnings.simplefilter("ignore")
+        cols, built = [], []
+        for n, s in sess["cols"]:
+            entry, col = _declare(n, s)
+            cols.append(entry)
+            if col is not None:
+                built.append(col)
+        schema = RelationSchema(name="t", columns=built)
+        frames = {}
+        steps = []
+        for op in sess["ops"]:
+            kind = op[0]
+            if kind == "describe":
+                f = op[1]
+                if f not in frames:
+                    frames[f] = DataFrame(rows=[], schema=schema)
+                now = _snapshot(schema)
+                steps.append({"now": now, "desc": _describe_entries(frames[f])})
+            elif kind in ("replace", "append"):
+                n, s = op[-2], op[-1]
+                entry, col = _declare(n, s)
+                if col is not None:
+                    if kind == "append":
+                        schema.columns.append(col)
+                    elif schema.columns:
+                        schema.columns[op[1] % len(schema.columns)] = col
+                steps.append({"decl": entry})
+            elif kind == "pop":
+                steps.append({"found": schema.pop_column(op[1]) is not None})
+            elif kind == "retype":
+                s = op[2]
+                up = s.upper()
+                entry = {"n": "", "s": s, "upper": up, "ext": _ext_of(up)}
+                try:
+                    r = OrsoTypes.from_name(s)
+                    if not (isinstance(r, tuple) and len(r) == 5):
+                        raise TypeError("from_name did not return a 5-tuple")
+                except Exception as e:
+                    entry["name"] = ["raise", type(e).__name__]
+                else:
+                    entry["name"] = ["ok", _ty(r[0]), _num(r[1]), _num(r[2]), _num(r[3]), _elt(r[4])]
+                    if schema.columns:
+                        c = schema.columns[op[1] % len(schema.columns)]
+                        c.type, c.length, c.precision, c.scale, c.element_type = r
+                steps.append({"res": entry})
+            else:
+                raise ValueError("unknown session operation %r" % (op,))
+        final = _snapshot(schema)
+    return {"cols": cols, "steps": steps, "final": final}
+
+
 def _observe_frame(case):
     """A whole frame: every declared column, then DataFrame.description of the frame built from the columns
     whose constructor did not raise - called twice on the same frame; column attributes are read afterwards."""
@@ -576,21 +702,7 @@ def _observe_frame(case):
             calls = [["raise", "frame:" + type(e).__name__]] * 2
         if df is not None:
             for _ in range(2):
-                try:
-                    d = df.description
-                    if not isinstance(d, (list, tuple)):
-                        raise TypeError("description is not a list")
-                    entries = []
-                    for row in d:
-                        if not (isinstance(row, tuple) and len(row) == 7):
-                            raise TypeError("description entry is not a 7-tuple")
-                        nm, code, dprec, dscale = row[0], row[1], row[4], row[5]
-                        back = _resolve(code) if isinstance(code, str) else ["raise", "not-a-string"]
-                        entries.append([nm if isinstance(nm, str) else ["other", repr(nm)[:60]],
-                                        code if isinstance(code, str) else ["other", repr(code)[:60]], _num(dprec), _num(dscale), back])
-                    calls.append(entries)
-                except Exception as e:
-                    calls.append(["raise", "description:" + type(e).__name__])
+                calls.append(_describe_entries(df))
         for entry, col in built:
             entry["col"] = ["ok", _ty(col.type), _num(col.length), _num(col.precision), _num(col.scale), _elt(col.element_type)]
     return {"cols": cols, "calls": calls}
@@ -602,6 +714,8 @@ def observe(case):
 
     if "frame" in case:
         return _observe_frame(case)
+    if "session" in case:
+        return _observe_session(case)
     s = case["s"]
     F = _facts()
     with warnings.catch_warnings():
@@ -807,9 +921,63 @@ def _oracle_frame(case, obs):
     return None
 
 
+def _oracle_session(case, obs):
+    """The property at every .description of a session: each reported type code must resolve back to what the schema's
+    column of that name carries AT THAT MOMENT (read from the column objects), however the column came to carry it.
+    Not demanded: a frame object that has been described under two different lists of column NAMES (DataFrame.column_names
+    is cached per frame object in the implementation; compared with the model, not judged here), columns whose current
+    attributes no declaration produces (DECIMAL without precision/scale, type 0), repeated names."""
+    F = _facts()
+    sess = case["session"]
+    for c in obs["cols"]:
+        why = _oracle_name(c["s"], c["name"], F) or _oracle_carries(c["s"], c["name"], c["col"])
+        if why:
+            return why
+    seen = {}    # frame -> the schema's names at every describe through it so far (None once they differed)
+    for k, (op, st) in enumerate(zip(sess["ops"], obs["steps"])):
+        at = f" (step {k} {op} of a session on a schema declared {sess['cols']})"
+        if op[0] in ("replace", "append"):
+            c = st["decl"]
+            why = _oracle_name(c["s"], c["name"], F) or _oracle_carries(c["s"], c["name"], c["col"])
+            if why:
+                return why + at
+        elif op[0] == "retype":
+            why = _oracle_name(st["res"]["s"], st["res"]["name"], F)
+            if why:
+                return why + at
+        elif op[0] == "describe":
+            now, desc = st["now"], st["desc"]
+            names = [c[0] for c in now]
+            f = op[1]
+            if f not in seen:
+                seen[f] = names
+            elif seen[f] != names:
+                seen[f] = None      # from now on nothing is demanded of this frame object
+            if seen[f] is None:
+                continue
+            if desc and desc[0] == "raise":
+                return f"DataFrame.description failed: {desc[1]}" + at
+            if [e[0] for e in desc] != names:
+                return f"DataFrame.description lists the columns {[e[0] for e in desc]}, the schema has {names}" + at
+            if len(set(map(str, names))) != len(names):
+                continue
+            for c, e in zip(now, desc):
+                ty, ln, pr, sc, el = c[1:6]
+                if ty[0] != "member" or (ty[1] == "DECIMAL" and (pr is None or sc is None)):
+                    continue
+                carried = ["ok", ty, ln, pr, sc, el]
+                shown = ty[1] + (f"({pr},{sc})" if ty[1] == "DECIMAL" else "") + (f"<{el}>" if el else "")
+                why = _oracle_code("<now " + shown + ">", carried, carried, e[1], e[2], e[3], e[4], f" (column {c[0]!r}, which now carries {shown};" + at[2:])
+                if why:
+                    return why
+    return None
+
+
 def oracle(case, obs):
     if "frame" in case:
         return _oracle_frame(case, obs)
+    if "session" in case:
+        return _oracle_session(case, obs)
     F = _facts()
     s = case["s"]
     name, col = obs["name"], obs["col"]
@@ -918,9 +1086,60 @@ def _frame_to_coq(case, obs):
     return ("frame", "((%s, %s) : frame_case)" % (L.lst(cols), L.lst(calls)))
 
 
+def _c_ci(c):
+    return "(%s, %s, %s, %s)" % (_c_text(c["n"]), _c_text(c["s"]), _c_text(c["upper"]), _c_ext(c["ext"]))
+
+
+def _c_colres(col):
+    return "(Raise %s)" % _c_exn(col[1]) if col[0] == "raise" else "(Ok %s)" % _c_descr(*col[1:6])
+
+
+def _c_schema(snap):
+    """list (str * descr); a column whose name is not a str becomes a TOther description (equals nothing)"""
+    out = []
+    for c in snap:
+        if isinstance(c[0], list):
+            out.append("(%s, %s)" % (_c_text("?"), _c_descr(["other", "name"], None, None, None, None)))
+        else:
+            out.append("(%s, %s)" % (_c_text(c[0]), _c_descr(*c[1:6])))
+    return L.lst(out)
+
+
+def _session_to_coq(case, obs):
+    cols = L.lst("(%s, %s)" % (_c_ci(c), _c_colres(c["col"])) for c in obs["cols"])
+    steps = []
+    for op, st in zip(case["session"]["ops"], obs["steps"]):
+        if op[0] == "describe":
+            desc = st["desc"]
+            if desc and desc[0] == "raise":
+                # AttributeError (None.type) is what the model calls OtherExn; anything else must not compare equal
+                r = "(SDesc %s (Raise OtherExn))" % _c_schema(st["now"]) if desc[1] == "description:AttributeError" else "(SPop false)"
+            else:
+                ents = []
+                for nm, code, dpr, dsc, back in desc:
+                    if isinstance(nm, list) or isinstance(code, list) or _bad(dpr, dsc):
+                        ents = None
+                        break
+                    ents.append("((%s, %s, %s, %s), %s)" % (_c_text(nm), _c_text(code), _c_optN(dpr), _c_optN(dsc), _c_result(back)))
+                r = "(SPop false)" if ents is None else "(SDesc %s (Ok %s))" % (_c_schema(st["now"]), L.lst(ents))
+            steps.append("(ODescribe %d%%nat, %s)" % (op[1], r))
+        elif op[0] in ("replace", "append"):
+            c = st["decl"]
+            o = "OReplace %d%%nat %s" % (op[1], _c_ci(c)) if op[0] == "replace" else "OAppend %s" % _c_ci(c)
+            steps.append("(%s, SDecl %s)" % (o, _c_colres(c["col"])))
+        elif op[0] == "pop":
+            steps.append("(OPop %s, SPop %s)" % (_c_text(op[1]), L.boolean(st["found"])))
+        else:
+            c = st["res"]
+            steps.append("(ORetype %d%%nat %s, SDecl %s)" % (op[1], _c_ci(c), _c_result(c["name"])))
+    return ("session", "((%s, %s, %s) : session_case)" % (cols, L.lst(steps), _c_schema(obs["final"])))
+
+
 def to_coq(case, obs):
     if "frame" in case:
         return _frame_to_coq(case, obs)
+    if "session" in case:
+        return _session_to_coq(case, obs)
     s = case["s"]
     ext = L.lst("(%s, (%s, %s, %s))" % (L.N(cp), L.opt(None if dv is None or dv < 0 else L.N(dv)), L.boolean(w), L.boolean(sp))
                 for cp, dv, w, sp in obs["ext"])
@@ -956,6 +1175,12 @@ def _form(u):
     return "plain"
 
 
+def jdump_case(case):
+    import json
+
+    return json.dumps(case, sort_keys=True)
+
+
 def _base_of(c):
     col = c["col"]
     return col[1][1] if col[0] == "ok" and col[1][0] == "member" else None
@@ -963,6 +1188,11 @@ def _base_of(c):
 
 def nontrivial_key(case, obs):
     F = _facts()
+    if "session" in case:  # non-trivial: the schema was changed between two descriptions
+        kinds = [o[0] for o in case["session"]["ops"]]
+        d = [i for i, k in enumerate(kinds) if k == "describe"]
+        ok = len(d) >= 2 and any(k != "describe" for k in kinds[d[0]:d[-1]])
+        return ("session", jdump_case(case)) if ok else None
     if "frame" in case:  # non-trivial: at least two columns were constructed
         built = [c for c in obs["cols"] if c["col"][0] == "ok"]
         return ("frame", tuple((n, s) for n, s in case["frame"])) if len(built) >= 2 else None
@@ -973,6 +1203,26 @@ def nontrivial_key(case, obs):
 
 
 def classify(case, obs):
+    if "session" in case:
+        ops = case["session"]["ops"]
+        yield "session:%s-ops" % (len(ops) if len(ops) <= 4 else ("5-8" if len(ops) <= 8 else ">8"))
+        seen, names_before = set(), None
+        for op, st in zip(ops, obs["steps"]):
+            if op[0] == "describe":
+                names = [c[0] for c in st["now"]]
+                if op[1] in seen:
+                    yield "session:same-frame-described-again"
+                    if names_before is not None and names_before != names:
+                        yield "session:same-frame-after-names-changed"
+                else:
+                    yield "session:new-frame-on-used-schema" if seen else "session:first-description"
+                seen.add(op[1])
+                names_before = names
+                if st["desc"] and st["desc"][0] == "raise":
+                    yield "session:description-raised"
+            else:
+                yield "session:op-" + op[0]
+        return
     if "frame" in case:
         cols = obs["cols"]
         built = [c for c in cols if c["col"][0] == "ok"]
@@ -1110,6 +1360,78 @@ def _frames_exhaustive(tier):
                     yield _frame([a, b, c])
 
 
+# ---- sessions on one schema object ------------------------------------------------------------
+SESSION_TYPES = ["DECIMAL(10,2)", "decimal(38,12)", "DECIMAL(5,5)", "DECIMAL", "ARRAY<INTEGER>", "Array<Varchar>", "ARRAY",
+                 "VARCHAR[12]", "BLOB[3]", "timestamp"]
+
+
+def _session(cols, ops):
+    return {"session": {"cols": [list(c) for c in cols], "ops": [list(o) for o in ops]}}
+
+
+def _sessions_exhaustive(tier):
+    # every ordered pair (old declaration, new declaration), each re-declaration route, described through the frame used
+    # before the change (0) and through a frame created after it (1)
+    for old in SESSION_TYPES:
+        for new in SESSION_TYPES:
+            if old == new:
+                continue
+            two = [("a", old), ("b", "INTEGER")]
+            # assign a new column object at the same index, same name
+            yield _session(two, [("describe", 0), ("replace", 0, "a", new), ("describe", 0), ("describe", 1)])
+            # pop + append when the column is the last one (names and count unchanged) ...
+            yield _session(two[::-1], [("describe", 0), ("pop", "a"), ("append", "a", new), ("describe", 0), ("describe", 1)])
+            # ... and when it is not (order of names changes: frame 0 is the implementation's stale-names case)
+            yield _session(two, [("describe", 0), ("pop", "a"), ("append", "a", new), ("describe", 1), ("describe", 0)])
+            # attributes of the column object assigned in place
+            yield _session(two, [("describe", 0), ("retype", 0, new), ("describe", 0), ("describe", 1)])
+            # grow, describe, re-declare the new column, shrink back
+            yield _session(two, [("describe", 0), ("append", "c", new), ("describe", 1), ("replace", 2, "c", old), ("describe", 1),
+                                 ("pop", "c"), ("describe", 2), ("describe", 0)])
+    # the reviewer's shape: three columns, two re-declared, then one dropped and re-added
+    yield _session([("amount", "DECIMAL(10,2)"), ("tags", "ARRAY<INTEGER>"), ("label", "VARCHAR[12]")],
+                   [("describe", 0), ("replace", 0, "amount", "decimal(38,12)"), ("replace", 1, "tags", "Array<Varchar>"), ("describe", 1),
+                    ("describe", 0), ("pop", "label"), ("append", "label", "DECIMAL(5,5)"), ("describe", 2), ("describe", 0), ("describe", 1)])
+    # re-declaration under another name, rejected re-declarations, an emptied schema
+    for new in ("DECIMAL(7,3)", "ARRAY<DATE>", "DECIMAL(5,6)", "STRING"):
+        yield _session([("a", "DECIMAL(10,2)"), ("b", "ARRAY<INTEGER>")],
+                       [("describe", 0), ("replace", 0, "z", new), ("describe", 1), ("describe", 0), ("retype", 1, new), ("describe", 2),
+                        ("pop", "z"), ("pop", "a"), ("pop", "b"), ("describe", 3), ("append", "a", new), ("describe", 3), ("describe", 4)])
+
+
+def _random_session(rng):
+    pool = ["a", "b", "c", "A", "amount", "tags"]
+    def ty():
+        k = rng.random()
+        if k < 0.6:
+            return _same_family(rng)
+        if k < 0.9:
+            return _recase(rng, _valid(rng))
+        return _random_case(rng)["s"]
+    k = rng.choice([1, 2, 2, 3, 3, 4, 5])
+    names = pool[:]
+    rng.shuffle(names)
+    cols = [(names[i] if rng.random() < 0.9 else rng.choice(pool), ty()) for i in range(k)]
+    ops = []
+    for _ in range(rng.choice([3, 4, 5, 6, 8, 10, 12])):
+        r = rng.random()
+        if r < 0.42:
+            ops.append(("describe", rng.choice([0, 0, 0, 1, 1, 2, 3])))
+        elif r < 0.62:
+            i = rng.randint(0, 5)
+            # mostly under the name the column at that index was created with (in place), sometimes another
+            n = cols[i % len(cols)][0] if rng.random() < 0.7 else rng.choice(pool)
+            ops.append(("replace", i, n, ty()))
+        elif r < 0.74:
+            ops.append(("append", rng.choice(pool), ty()))
+        elif r < 0.86:
+            ops.append(("pop", rng.choice(pool)))
+        else:
+            ops.append(("retype", rng.randint(0, 5), ty()))
+    ops.append(("describe", rng.choice([0, 1, 4])))
+    return _session(cols, ops)
+
+
 def exhaustive(tier):
     def it():
         names = _all_names()
@@ -1141,6 +1463,7 @@ def exhaustive(tier):
             yield {"s": "DECIMAL(12,%s3)" % ch}
             yield {"s": "ARRAY<DA%sTE>" % ch}
         yield from _frames_exhaustive(tier)
+        yield from _sessions_exhaustive(tier)
         if tier == "thorough":
             for p in range(0, 46):
                 for s in range(0, 46):
@@ -1169,6 +1492,9 @@ def exhaustive(tier):
              "digit, a space and an element position" % len(BOUNDARY))
     label += ("; whole frames: every ordered pair of %d declared names (all members and aliases, %d parameterised / bare / rejected spellings), every ordered triple of "
               "%d distinct DECIMAL and ARRAY spellings, the whole set in one frame (3 orders), the empty frame, 7 column-name schemes" % (len(_frame_core()), len(FRAME_PARAM), len(FRAME_TRIPLE)))
+    label += ("; sessions on one schema object: every ordered pair (old, new) of %d declarations x 5 re-declaration routes (assign at the index, pop+append with and "
+              "without a change of order, attributes assigned in place, grow/re-declare/shrink), each described through the frame used before and a frame created after"
+              % len(SESSION_TYPES))
     if tier == "thorough":
         label += "; frames: every ordered pair of DECIMAL(p,s) over a 7-value grid and of ARRAY<T> over all names, every ordered triple of 19 spellings"
         label += "; thorough: two further spellings of every DECIMAL(p,s), n in 0..3000, ARRAY<T> in 5 case patterns and with every ASCII character appended, 7 more character positions"
@@ -1318,6 +1644,8 @@ def generate(rng, tier):
     # frames are drawn after the strings so that the string stream of a given seed is the one of round 1
     for _ in range(250 if tier == "quick" else 5000):
         yield _random_frame(rng)
+    for _ in range(150 if tier == "quick" else 4000):
+        yield _random_session(rng)
 
 
 def search(rng):
@@ -1325,8 +1653,12 @@ def search(rng):
     while True:
         if names is None:
             names = _all_names()
-        if rng.random() < 0.4:
+        r = rng.random()
+        if r < 0.3:
             yield _random_frame(rng)
+            continue
+        if r < 0.6:
+            yield _random_session(rng)
             continue
         k = rng.random()
         if k < 0.2:
@@ -1340,6 +1672,13 @@ def search(rng):
 
 
 def shrink(case):
+    if "session" in case:
+        s = case["session"]
+        for i in range(len(s["ops"])):
+            yield {"session": {"cols": s["cols"], "ops": s["ops"][:i] + s["ops"][i + 1:]}}
+        for i in range(len(s["cols"])):
+            yield {"session": {"cols": s["cols"][:i] + s["cols"][i + 1:], "ops": s["ops"]}}
+        return
     if "frame" in case:
         fr = case["frame"]
         for i in range(len(fr)):
